@@ -23,9 +23,10 @@ type pathAbort struct {
 
 // targetRuntimeError is a Go run-time panic of the target program detected by the interpreter.
 type targetRuntimeError struct {
-	msg string
-	pos string
-	fn  string
+	msg   string
+	pos   string
+	fn    string
+	stack []string
 }
 
 func (e targetRuntimeError) Error() string { return "runtime error: " + e.msg }
